@@ -64,10 +64,10 @@ Section Gen.
     | o :: r =>
         (match o with
          | OEqualAt i _ | OReplace i _ | ORemove i | OGet i | OYank i | OShove i
-         | OPopVec i | OCopy i | OCopyVec i => (0 <=? i) && (i <? 18446744073709551615)
+         | OPopVec i | OCopy i | OCopyVec i => (0 <=? i) && (i <=? 18446744073709551615)
          | OSwap i j => (0 <=? i) && (i <? len t) && (0 <=? j) && (j <? len t)
          | _ => true
-         end) && ops_wf_bg (fst (spec_step eqA streq t o)) r
+         end) && ops_wf_bg (fst (spec_step_c eqA streq t o)) r
     end.
 
   (* the model's result of a history (init bottom first) *)
@@ -79,6 +79,6 @@ Section Gen.
      top-first sequence yields for the same history; 2 = outside the quantifier *)
   Definition check_g (init : list A) (ops : list (op A)) (observed : sx) : sx :=
     if ops_wf_bg (rev init) ops then
-      sx_bool (sx_eqb observed (SL [SZ 0; sx_run_g (spec_run eqA streq (rev init) ops)]))
+      sx_bool (sx_eqb observed (SL [SZ 0; sx_run_g (spec_run_c eqA streq (rev init) ops)]))
     else SZ 2.
 End Gen.
